@@ -143,6 +143,18 @@ def run(ctx, replay=None):
                     pass            # convergence is slower than any fixed multiple of the range for tiny shapes
                 elif abs(far - (b + c0)) > 1e-6 * c0 + tol:
                     ctx.problem('oracle', 'model does not tend to nugget + sill for large lags', case, {'far': far}, dict(sig, clause='limit'))
+            # the same call with an integer-typed range (and sill) must give the same value (compiled integer arithmetic wraps)
+            if name in ('spherical', 'exponential', 'gaussian', 'cubic') and rng.random() < 0.5:
+                ri = rng.choice([3, 17, 511, 512, 1000, 40000, 3000000])
+                hh = [0.0, ri * 0.25, ri * 0.999, float(ri), ri * 2.5]
+                try:
+                    vi = [float(f(h, ri, 2, b)) for h in hh] + [float(f(h, np.int64(ri), 2.0, b)) for h in hh]
+                    vf = [float(f(h, float(ri), 2.0, b)) for h in hh] * 2
+                    if not all(gen.close(a_, b_, 1e-12, 1e-12) for a_, b_ in zip(vi, vf)):
+                        ctx.problem('oracle', 'model called with an integer-typed range differs from the same call with a float range', dict(case, r_int=ri),
+                                    {'int': vi[:5], 'float': vf[:5]}, {'what': 'int-vs-float-range', 'model': name})
+                except Exception as e:
+                    ctx.problem('oracle', 'model raises for an integer-typed range: %s' % type(e).__name__, dict(case, r_int=ri), None, {'what': 'raises', 'model': name})
             ctx.case_done(case, True)
         # ---------- sum of models: slices against the model, sum = sum of components + single nugget
         nsum = 25 if not ctx.thorough() else 200
@@ -188,6 +200,38 @@ def run(ctx, replay=None):
                     ctx.problem('oracle', 'sum model differs from the sum of its components plus a single shared nugget', case, {'h': h, 'sum_model': got, 'components_plus_nugget': want})
                     break
             ctx.case_done(case, True)
+        # ---------- a sum-model function keeps denoting its own sum after other sums were set on the same instance
+        try:
+            Vs = Variogram(c, v, model='spherical+gaussian', n_lags=8)
+            kept = []
+            for nm in ['spherical+stable', 'stable+spherical', 'exponential+gaussian+spherical', 'cubic+exponential', 'matern+spherical']:
+                Vs.set_model(nm)
+                names = nm.split('+')
+                sizes = [3 if n_ in ('stable', 'matern') else 2 for n_ in names]
+                args = []
+                for n_, k_ in zip(names, sizes):
+                    args += [12.0 + len(args), 3.0 + 0.5 * len(args)] + ([1.5] if k_ == 3 else [])
+                args.append(0.75)
+                kept.append((nm, Vs.model, names, sizes, args))
+                for (nm0, fn0, names0, sizes0, args0) in kept:
+                    for h in (0.0, 2.5, 9.0, 40.0):
+                        want, pos = args0[-1], 0
+                        for n_, k_ in zip(names0, sizes0):
+                            want += float(getattr(models, n_)(h, *args0[pos:pos + k_], 0.0))
+                            pos += k_
+                        try:
+                            got = float(fn0(h, *args0))
+                        except Exception as e:
+                            got = float('nan')
+                        if not gen.close(want, got, 1e-9, 1e-12):
+                            ctx.problem('oracle', 'the function of the sum model %s no longer equals the sum of its components after %s was set on the same instance' % (nm0, nm),
+                                        {'sum': nm0, 'later': nm}, {'h': h, 'function': got, 'components_plus_nugget': want}, {'what': 'stale-sum-function'})
+                            raise StopIteration
+            ctx.tests['sum_function_reuse'] = len(kept)
+        except StopIteration:
+            pass
+        except Exception as e:
+            ctx.count('sum_reuse_rejected', type(e).__name__)
         vc.run_golden(ctx, coq, model)
     finally:
         model.close()
